@@ -74,8 +74,8 @@ Definition dec_hop (s : sx) : hop :=
 Fixpoint hrun20 (slack : nat -> nat) (m : hmach) (ops : list hop) : list sx :=
   match ops with [] => [] | o :: r => let m' := hstep slack m o in observe20 (abs m') :: hrun20 slack m' r end.
 
-(* the harness starts with four empty variants and two empty caller lists of capacity 4 and 2 *)
-Definition lists20 : list (list val * nat) := [(repeat Null 4, O); (repeat Null 2, O)].
+(* the harness starts with four empty variants and two empty caller lists: one of capacity 4, one the nil slice *)
+Definition lists20 : list (list val * nat) := [(repeat Null 4, O); ([], O)].
 
 Definition model_C20 (input : sx) : sx :=
   match gl input with
